@@ -174,7 +174,7 @@ var docAlphabet = []byte{0, 1, 0x1f, ' ', '\n', '"', '\\', '{', '}', '[', ']', '
 // genFaultBase draws the base document of a C05 run.
 func genFaultBase(r *Run) (d Doc, desc string) {
 	c := r.C
-	cls := c.Pick("basecls", 4, 3, 3, 3, 2, 2, 2, 2)
+	cls := c.Pick("basecls", 4, 3, 3, 3, 2, 2, 2, 2, 1)
 	switch cls {
 	case 0: // tiny
 		d = GenDoc(c, DocSpec{Family: FamMixed, Target: 2 + c.Intn("tiny", 60), WS: c.Pick("bws", 4, 2, 1), Record: true, MaxDepth: 3, StrMax: 20})
@@ -197,6 +197,35 @@ func genFaultBase(r *Run) (d Doc, desc string) {
 	case 6: // large
 		d = GenBulkDoc(c, 9000+c.Intn("large", 120000), pipeFams)
 		desc = "large"
+	case 8: // dense structurals, then a long token without any structural inside: an index buffer can come up empty
+		n := 1300 + c.Intn("dprefix", 3000)
+		var b bytes.Buffer
+		b.WriteByte('[')
+		for b.Len() < n {
+			b.WriteString([]string{"[],", "{},", "0,", "[[]],"}[c.Intn("dp", 4)])
+		}
+		tail := 1 + c.Intn("dtail", 700)
+		switch c.Intn("dtailkind", 3) {
+		case 0:
+			b.WriteByte('"')
+			b.Write(bytes.Repeat([]byte{'a'}, tail))
+			if c.Intn("dclose", 2) == 0 {
+				b.WriteString("\"]")
+			}
+		case 1:
+			b.Write(bytes.Repeat([]byte{'7'}, tail))
+			if c.Intn("dclose", 2) == 0 {
+				b.WriteString("]")
+			}
+		case 2:
+			b.WriteByte('"')
+			b.Write(bytes.Repeat([]byte{'\\', '\\'}, tail/2+1))
+			if c.Intn("dclose", 2) == 0 {
+				b.WriteString("\"]")
+			}
+		}
+		d = Doc{B: append([]byte(nil), b.Bytes()...)}
+		desc = "dense-then-long-token"
 	case 7: // adversarial nesting depth
 		depth := 10 + c.Intn("depth", 3000)
 		switch c.Intn("verydeep", 8) {
